@@ -23,4 +23,5 @@ def run(ctx, rep):
     rep.run(RM.rule_every_class_iteration_filtered, ctx, rep, "X2")
     rep.run(RM.rule_cross_class_state_keyed_by_class, ctx, rep, "X4")
     rep.run(RM.rule_none_result_handled, ctx, rep, "X3")
+    rep.run(RM.rule_ignore_entries_match_whole_names, ctx, rep, "X5")
     rep.run(RF.rule_locals_defined, ctx, rep, "U1", packages=("gtwrap/matlab_wrapper", "gtwrap/pybind_wrapper.py"), min_functions=3)
